@@ -122,6 +122,25 @@ def repair_may_fire(fam, pycol, entries):
     return False
 
 
+def _verdict_cell(s):
+    """One entry of a per-field result / one cell of to_frame() as a
+    comparable value: True / False / 'None' / 'nan' / repr."""
+    if s is None:
+        return 'None'
+    try:
+        if isinstance(s, float) and s != s:
+            return 'nan'
+        if s != s:                       # numpy nan / NaT / NA-likes
+            return 'nan'
+    except Exception:
+        pass
+    if type(s).__name__ in ('bool', 'bool_', 'bool'):
+        return bool(s)
+    if type(s).__name__ in ('NAType', 'NaTType'):
+        return 'nan'
+    return repr(s)
+
+
 def _cell(v):
     """Value with its null flavour kept apart (None / nan / NaT / <NA>)."""
     return '%s:%r' % (type(v).__name__, v)
@@ -191,8 +210,11 @@ class Driver(object):
         self.pd = pd
         self.np = np
 
-    def call(self, df, cdict, eps, tc, report, repair, path=None, agg=True):
+    def call(self, df, cdict, eps, tc, report, repair, path=None, agg=True,
+             ascii=None):
         kw = {}
+        if ascii is not None:
+            kw['ascii'] = ascii
         if eps != 'none':
             kw['epsilon'] = eps
         if tc is not None:
@@ -215,9 +237,12 @@ class Driver(object):
 
 def run_and_judge(D, R, cols, names, fields, eps, tc, report, sub,
                   path=None, judge=True, agg=True, series=None,
-                  on_exc='record'):
+                  on_exc='record', ascii=None, path_form=None, hook=None):
     """cols/names: the frame; fields: OrderedDict fieldname -> entries.
-    Returns {field: {kind: observed bool}} or None if tdda raised."""
+    Returns {field: {kind: observed bool}} or None if tdda raised.
+    path_form: the FORM in which the constraints path is handed over
+    (A.PATH_FORMS); hook: a dict that receives 'fresh', a callable making a
+    new, never looked-at result object of exactly this call."""
     pycols = dict((n, A.py_column(c)) for c, n in zip(cols, names))
     fams = dict((n, c['fam']) for c, n in zip(cols, names))
     if series is not None:
@@ -242,8 +267,19 @@ def run_and_judge(D, R, cols, names, fields, eps, tc, report, sub,
         with open(path, 'w') as fh:
             json.dump(full, fh)
     state0 = frame_state(df) if agg else None
+    path_arg = A.path_in_form(path, path_form) if path else None
     status, v, text, frame = D.call(df, full, eps, tc, report, repair,
-                                    path=path, agg=agg)
+                                    path=path_arg, agg=agg, ascii=ascii)
+    if hook is not None:
+        def fresh():
+            if series is not None:
+                df2 = D.pd.DataFrame(OrderedDict(
+                    (n, series[i].copy()) for i, n in enumerate(names)))
+            else:
+                df2 = A.build_frame(cols, names)
+            return D.call(df2, full, eps, tc, report, repair, path=path_arg,
+                          agg=False, ascii=ascii)[:2]
+        hook['fresh'] = fresh
     R.ev()
     if agg:
         # the harness passes repair=False whenever repair could rewrite a
@@ -335,6 +371,26 @@ def run_and_judge(D, R, cols, names, fields, eps, tc, report, sub,
                         'type_checking': tc, 'expected': want, 'observed': o},
                        sub)
         observed[f] = obs_f
+        # a verdict is reported for the constraints given and for nothing else
+        asked = set(e['kind'] for e in judged)
+        extra = [k for k in got.keys() if k not in asked]
+        R.checked += 1
+        if extra:
+            R.viol('verdict-for-absent-constraint:%s'
+                   % ('nan' if all(_verdict_cell(got[k]) == 'nan'
+                                   for k in extra) else 'value'),
+                   'verdicts-only-for-the-constraints-given',
+                   {'field': f, 'constraints': json.loads(
+                       json.dumps(cdict, default=str)),
+                    'extra': dict((k, _verdict_cell(got[k])) for k in extra),
+                    'got': str(dict(got))}, sub)
+    extra_f = [f for f in v.fields.keys() if f not in fields]
+    if extra_f:
+        R.viol('field-reported-without-constraints',
+               'verdicts-only-for-the-constraints-given',
+               {'fields': [str(f) for f in extra_f],
+                'constraints': json.loads(json.dumps(cdict, default=str))},
+               sub)
     R.out('%s|%s' % (kinds_sig if len(kinds_sig) < 40 else 'many',
                      ''.join('T' if x else 'F' for of in observed.values()
                              for x in of.values())[:24]))
@@ -358,7 +414,8 @@ def run_and_judge(D, R, cols, names, fields, eps, tc, report, sub,
                         failures=fr.failures), sub)
     if agg:
         check_frame(D, R, frame, observed, detail, kinds_sig, sub)
-        check_text(R, text, observed, report, detail, kinds_sig, sub)
+        check_text(R, text, observed, report, detail, kinds_sig, sub,
+                   ascii=ascii)
     return observed
 
 
@@ -470,7 +527,28 @@ RE_PASS = re.compile(r'^Constraints passing: (\d+)$', re.M)
 RE_FAIL = re.compile(r'^Constraints failing: (\d+)$', re.M)
 
 
-def check_text(R, text, observed, report, detail, kinds_sig, sub):
+MARKS = {None: ('\u2713', '\u2717'), False: ('\u2713', '\u2717'),
+         True: ('OK', 'X')}
+
+
+def field_line(text, f):
+    """The line of str(result) about field f -> (failures, passes,
+    [(kind, mark)]) or None when there is none / it cannot be read.  The
+    documented shape (tdda's own examples): "<field>: <n> failure(s)  <m>
+    pass(es)  <kind> <mark>  <kind> <mark> ..."."""
+    m = re.search(r'^%s: (\d+) failures?  (\d+) pass(?:es)?(?:  (.*))?$'
+                  % re.escape(f), text, re.M)
+    if not m:
+        return None
+    items = [x for x in (m.group(3) or '').split('  ') if x.strip()]
+    marks = []
+    for it in items:
+        parts = it.strip().split(' ')
+        marks.append((parts[0], ' '.join(parts[1:])))
+    return (int(m.group(1)), int(m.group(2)), marks)
+
+
+def check_text(R, text, observed, report, detail, kinds_sig, sub, ascii=None):
     P = sum(1 for of in observed.values() for x in of.values() if x)
     F = sum(1 for of in observed.values() for x in of.values() if not x)
     mp, mf = RE_PASS.search(text), RE_FAIL.search(text)
@@ -490,6 +568,36 @@ def check_text(R, text, observed, report, detail, kinds_sig, sub):
                        'report-mode-lists-documented-fields',
                        dict(detail, field=f, shown=shown, text=text[:300]),
                        sub)
+                continue
+            if not shown:
+                continue
+            # the field's line: its two counts and one mark per constraint
+            # equal the verdicts - and there is a mark for nothing else
+            fl = field_line(text, f)
+            p = sum(1 for x in of.values() if x)
+            tick, cross = MARKS[ascii]
+            want_marks = sorted((k, tick if x else cross)
+                                for k, x in of.items())
+            R.checked += 1
+            if fl is None:
+                R.viol('str-field-line-unreadable:%s' % report,
+                       'printed-field-line-equals-verdicts',
+                       dict(detail, field=f, text=text[:400]), sub)
+            elif (fl[0], fl[1]) != (len(of) - p, p):
+                R.viol('str-field-counts:%s' % report,
+                       'printed-field-line-equals-verdicts',
+                       dict(detail, field=f, printed=[fl[0], fl[1]],
+                            expected=[len(of) - p, p], text=text[:400]), sub)
+            elif sorted(fl[2]) != want_marks:
+                kinds_shown = sorted(k for k, _ in fl[2])
+                what = ('marks' if kinds_shown == sorted(of) else
+                        'mark-for-absent-constraint'
+                        if set(of) < set(kinds_shown) else 'kinds')
+                R.viol('str-field-%s:%s%s' % (what, report,
+                                              ':ascii' if ascii else ''),
+                       'printed-field-line-equals-verdicts',
+                       dict(detail, field=f, printed=fl[2],
+                            expected=want_marks, text=text[:400]), sub)
 
 
 def pick_values(col, kind, tier, want_n=2):
@@ -537,6 +645,9 @@ REPORT_COLS = [
     {'fam': 'cat', 'vals': ['a', 'a']}, {'fam': 'bool', 'vals': [True, False]},
     {'fam': 'u8', 'vals': [0, 255]},
 ]
+# 'observe' (quick): pairs of report columns whose sets of applicable kinds
+# are disjoint-ish, overlapping and identical
+OBSERVE_PAIRS = [(0, 2), (1, 6), (4, 5), (0, 0)]
 NAME_PAIRS = [('a', 'b c'), ('é', 'a'), ('min', '#x'), ('a_min_ok', 'a'),
               ('b c', 'min'), ('#x', 'é')]
 
@@ -601,7 +712,14 @@ class C02(Check):
                     'exception'),
             ('report', 'two-field frames + missing field, all kinds at once, '
                        'every report mode'),
-            ('file', 'the same constraints through a .tdda file'),
+            ('observe', 'E3 on ONE result object: every order of the five '
+                        'observations (totals, per-field counts, .fields, '
+                        'to_frame()/to_dataframe(), str()), each made twice: '
+                        'every observation equals the one made first on a '
+                        'fresh result (looking at a result never changes it)'),
+            ('file', 'the same constraints through a .tdda file, the path '
+                     'given in every form (str, relative str, pathlib.Path, '
+                     'pure path, os.PathLike)'),
         ]
 
     # ------------------------------------------------------------ cases
@@ -671,6 +789,23 @@ class C02(Check):
                 for j, c2 in enumerate(REPORT_COLS):
                     for (n1, n2) in NAME_PAIRS:
                         yield {'L': 'report', 'c1': c1, 'c2': c2, 'n1': n1, 'n2': n2}
+        elif layer == 'observe':
+            pairs = OBSERVE_PAIRS if tier == 'quick' else [
+                (i, j) for i in range(len(REPORT_COLS))
+                for j in range(i, len(REPORT_COLS))]
+            for (i, j) in pairs:
+                for mode in (('sat', 'mixed', 'nulls') if tier == 'quick'
+                             else ('sat', 'viol', 'mixed', 'nulls')):
+                    for (report, ascii) in (
+                            [('all', None), ('all', True), ('fields', None),
+                             ('records', True)] if tier == 'quick' else
+                            [(r, a) for r in ('all', 'fields', 'records')
+                             for a in (None, True)]):
+                        for first in A.OBSERVATIONS:
+                            yield {'L': 'observe', 'c1': REPORT_COLS[i],
+                                   'c2': REPORT_COLS[j], 'mode': mode,
+                                   'report': report, 'ascii': ascii,
+                                   'first': first}
         elif layer == 'file':
             for col in A.small_columns(tier):
                 if (len(col['vals']) > 1 or 'cats' in col) \
@@ -746,6 +881,9 @@ class C02(Check):
             nonempty = True
         elif L == 'report':
             self.run_report(R, case)
+            nonempty = True
+        elif L == 'observe':
+            self.run_observe(R, case)
             nonempty = True
         elif L == 'file':
             self.run_file(R, case)
@@ -906,33 +1044,185 @@ class C02(Check):
                                       {'kind': kind, 'val': enc,
                                        'with_present': True, 'order': order})
 
+    def report_fields(self, c1, n1, c2, n2, mode):
+        """All kinds at once on two fields: every constraint satisfied
+        ('sat'), every one violated ('viol'), the first field satisfied, the
+        second violated and a field the data lacks ('mixed'), or ('nulls')
+        the first field satisfied with every other kind null-valued, the
+        second with ONE constraint only and a missing field with another -
+        three fields whose sets of kinds all differ."""
+        fields = OrderedDict()
+        for idx, (c, n) in enumerate(((c1, n1), (c2, n2))):
+            es = []
+            for kind in A.KINDS:
+                pv = pick_values(c, kind, self.tier)
+                pycol = A.py_column(c)
+                svals = [e for e in pv if M.sat(
+                    kind, model_value(kind, e), pycol, c['fam'],
+                    epsilon=0) is True]
+                fvals = [e for e in pv if e not in svals]
+                if mode == 'nulls':
+                    if idx == 0:
+                        if svals:
+                            es.append(spec_entry(kind, svals[0]))
+                        elif not (kind == 'type' and any(
+                                A.bound_needs_type_date(e['val'])
+                                for e in es)) and kind != 'rex':
+                            es.append(spec_entry(kind, None))
+                    elif fvals and not es and kind != 'type':
+                        es.append(spec_entry(kind, fvals[0]))
+                    continue
+                if mode == 'sat' or (mode == 'mixed' and idx == 0):
+                    pickv = svals
+                else:
+                    pickv = fvals
+                if pickv:
+                    es.append(spec_entry(kind, pickv[0]))
+            if es:
+                fields[n] = es
+        if mode == 'mixed':
+            fields[ABSENT] = [spec_entry('max_nulls', 0),
+                              spec_entry('type', 'int')]
+        elif mode == 'nulls':
+            fields[ABSENT] = [spec_entry('no_duplicates', True)]
+        return fields
+
+    def run_observe(self, R, case):
+        """Histories of observations on one result object.  ops = the five
+        ways of looking at a result; a history = a permutation of them, each
+        made twice in a row (to_frame() the first time, its documented alias
+        to_dataframe() the second).  Oracle: the verdicts are first judged
+        against the model in the usual way; then every observation in every
+        history equals the same observation made FIRST on a fresh result."""
+        import itertools
+        D = self.D
+        c1, c2 = case['c1'], case['c2']
+        n1, n2 = 'a', 'b c'
+        fields = self.report_fields(c1, n1, c2, n2, case['mode'])
+        if not fields:
+            return
+        report, ascii = case['report'], case['ascii']
+        sub = {'mode': case['mode'], 'report': report, 'ascii': ascii}
+        hook = {}
+        observed = run_and_judge(D, R, [c1, c2], [n1, n2], fields, 0,
+                                 'strict', report, sub, ascii=ascii,
+                                 hook=hook)
+        if observed is None:
+            return
+        fresh = hook['fresh']
+
+        def look(v, what, nth=0):
+            if what == 'totals':
+                return [v.passes, v.failures]
+            if what == 'counts':
+                return dict((f, [r.passes, r.failures])
+                            for f, r in v.fields.items())
+            if what == 'fields':
+                return dict((f, dict((k, _verdict_cell(x))
+                                     for k, x in r.items()))
+                            for f, r in v.fields.items())
+            if what == 'str':
+                return str(v)
+            fr = v.to_dataframe() if nth else v.to_frame()
+            # keyed by field and column: the statement fixes no order
+            names = [str(x) for x in fr['field']]
+            return dict((f, dict(
+                (str(c), (int(fr[c].iloc[i]) if c in ('passes', 'failures')
+                          else _verdict_cell(fr[c].iloc[i])))
+                for c in fr.columns if c != 'field'))
+                for i, f in enumerate(names))
+
+        def new():
+            status, v = fresh()
+            R.ev(1, 0)
+            return v if status == 'ok' else None
+
+        # reference: each observation made first (and alone) on a fresh one
+        ref = {}
+        for what in A.OBSERVATIONS:
+            v = new()
+            if v is None:
+                return
+            ref[what] = look(v, what)
+        # the references themselves against the verdicts judged above
+        want_fields = dict((f, dict(of)) for f, of in observed.items())
+        R.checked += 3
+        if ref['fields'] != want_fields or ref['totals'] != [
+                sum(1 for of in observed.values() for x in of.values() if x),
+                sum(1 for of in observed.values() for x in of.values()
+                    if not x)]:
+            R.viol('fresh-result-differs-between-calls',
+                   'same-call-same-result',
+                   dict(sub, first=want_fields, again=ref['fields'],
+                        totals=ref['totals']), sub)
+            return
+        used = set(k for of in observed.values() for k in of)
+        want_frame = dict(
+            (f, dict([('passes', sum(1 for x in of.values() if x)),
+                      ('failures', sum(1 for x in of.values() if not x))]
+                     + [(k, of.get(k, 'nan')) for k in used]))
+            for f, of in observed.items())
+        if ref['frame'] != want_frame:
+            R.viol('to_frame:exact-columns-and-cells',
+                   'tabular-form-equals-verdicts',
+                   dict(sub, frame=ref['frame'], expected=want_frame), sub)
+            return
+
+        seen_sigs = set()
+        for perm in itertools.permutations(A.OBSERVATIONS):
+            if perm[0] != case['first']:
+                continue
+            v = new()
+            if v is None:
+                return
+            done = []
+            for what in perm:
+                for nth in (0, 1):
+                    got = look(v, what, nth)
+                    R.checked += 1
+                    R.transitions += 1
+                    if got == ref[what]:
+                        done.append(what)
+                        continue
+                    # which single earlier observation is enough?
+                    culprit = 'sequence'
+                    for y in dict.fromkeys(done):
+                        v2 = new()
+                        if v2 is None:
+                            break
+                        look(v2, y)
+                        if look(v2, what) != ref[what]:
+                            culprit = y
+                            break
+                    sig = 'observation-changes-result:%s-then-%s' % (
+                        culprit, what)
+                    if sig not in seen_sigs:
+                        seen_sigs.add(sig)
+                        R.viol(sig, 'observing-a-result-does-not-change-it',
+                               {'frame': {n1: c1, n2: c2},
+                                'constraints': json.loads(json.dumps(
+                                    OrderedDict((f, build_field_dict(es)[0])
+                                                for f, es in fields.items()),
+                                    default=str)),
+                                'report': report, 'ascii': ascii,
+                                'history': done + [what],
+                                'observation': what,
+                                'on_a_fresh_result': ref[what],
+                                'after_the_history': got},
+                               dict(sub, perm=list(perm)))
+                    break
+                else:
+                    continue
+                break
+        R.out('observe|%s|%s' % (case['mode'], ''.join(
+            'T' if x else 'F' for of in observed.values()
+            for x in of.values())[:24]))
+
     def run_report(self, R, case):
         D = self.D
         c1, c2, n1, n2 = case['c1'], case['c2'], case['n1'], case['n2']
         for mode in ('sat', 'viol', 'mixed'):
-            fields = OrderedDict()
-            for idx, (c, n) in enumerate(((c1, n1), (c2, n2))):
-                es = []
-                for kind in A.KINDS:
-                    pv = pick_values(c, kind, self.tier)
-                    if not pv:
-                        continue
-                    pycol = A.py_column(c)
-                    svals = [e for e in pv if M.sat(
-                        kind, model_value(kind, e), pycol, c['fam'],
-                        epsilon=0) is True]
-                    fvals = [e for e in pv if e not in svals]
-                    if mode == 'sat' or (mode == 'mixed' and idx == 0):
-                        pickv = svals
-                    else:
-                        pickv = fvals
-                    if pickv:
-                        es.append(spec_entry(kind, pickv[0]))
-                if es:
-                    fields[n] = es
-            if mode == 'mixed':
-                fields[ABSENT] = [spec_entry('max_nulls', 0),
-                                  spec_entry('type', 'int')]
+            fields = self.report_fields(c1, n1, c2, n2, mode)
             if not fields:
                 continue
             for report in ('all', 'fields', 'records'):
@@ -964,6 +1254,26 @@ class C02(Check):
                                          var['eps'], var['tc'], None,
                                          dict(var, val=enc, route='file'),
                                          path=path)
+                # the same file named in every other FORM of a path argument:
+                # same verdicts (or the same refusal) as for the plain str
+                for form in A.PATH_FORMS:
+                    if form == 'str' or not os.path.exists(path):
+                        continue
+                    via_form = run_and_judge(
+                        D, R, [col], [PRESENT], fields, var['eps'], var['tc'],
+                        None, dict(var, val=enc, route='file', form=form),
+                        path=path, path_form=form, judge=False, agg=False,
+                        on_exc='return')
+                    R.checked += 1
+                    if via_form != ('EXC' if via_file is None else via_file):
+                        R.viol('constraints-path-form:%s:%s' % (
+                            form, 'raises' if via_form == 'EXC' else
+                            'verdicts-differ'),
+                            'every-form-of-a-path-names-the-same-file',
+                            {'column': col, 'kind': kind, 'value': enc,
+                             'form': form, 'as_str': via_file,
+                             'in_this_form': via_form},
+                            dict(var, val=enc, form=form))
                 if os.path.exists(path):
                     os.remove(path)
                 R.checked += 1
